@@ -315,6 +315,7 @@ def P6(ctx):
 
 def run(ctx):
     from . import guardvocab
+    guardvocab.G3(ctx, scopes=('thread::', 'rt::scheduler::', 'model::'))
     guardvocab.G0(ctx, effects={'thread-done', 'switch'})
     guardvocab.G1(ctx, effects={'thread-done', 'switch'})
     P6(ctx)
@@ -325,3 +326,7 @@ def run(ctx):
     P4(ctx)
     P4b(ctx)
     P5(ctx)
+    # the thread limit fails inside the model (Set::new_thread), before the scheduler outside the model would notice it
+    from . import pathrules
+    pathrules.B4(ctx)
+    pathrules.B4b(ctx)
